@@ -238,7 +238,10 @@ WalkStmt(s, st, sigma, frozen, af, md) ==
                Emit(st, [i \in 1..pad |-> 0], s.sid)
     [] s.k \in {"const", "var"} ->
         LET v == EvalE(s.e, st, sigma, frozen) IN
-        IF v.k = "unres" THEN NoteUnresAt(st, v, frozen, s.sid)
+        (* a constant defined in terms of a symbol with its own name (`.const e = e - 16' shadowing an outer e): which
+           e is meant is not fixed by the property; the reference semantics does not judge such programs *)
+        IF frozen /\ \E i \in Ids(s.e) : i.path[Len(i.path)] = s.name THEN Unspec(st)
+        ELSE IF v.k = "unres" THEN NoteUnresAt(st, v, frozen, s.sid)
         ELSE IF v.k = "undef" THEN Unspec(st)
         ELSE IF s.k = "var" THEN DefineVar(st, s.name, v) ELSE Define(st, s.name, v, FALSE)
     [] s.k = "defseg" ->
@@ -348,11 +351,11 @@ RefL(prog, files, sigma, defaultPc, af, move) ==
   [r EXCEPT !.tab = SegSyms(r.segs) @@ @]
 
 (* ---------------------------------------------------------------- the pass loop *)
-(* Machine state: [tab, segs, cur0, undef, prevUndef, errs, prevErrs, pass, phase]            *)
+(* Machine state: [tab, segs, cur0, undef, prevUndef, errs, prevErrs, pass, phase, confirmed]  *)
 (*   phase \in {"run", "ok", "failed"}                                                       *)
 ResetSeg(s) == [s EXCEPT !.pc = s.init, !.mem = <<>>, !.rlo = s.init, !.rhi = s.init, !.touched = FALSE]
 MInit == [tab |-> <<>>, segs |-> <<>>, cur0 |-> "", undef |-> {}, prevUndef |-> {}, errs |-> {}, prevErrs |-> {},
-          pass |-> 0, phase |-> "run", vars |-> {}, nodes |-> {}]
+          pass |-> 0, phase |-> "run", vars |-> {}, nodes |-> {}, confirmed |-> FALSE]
 
 (* one pass: walk in place, then (re)register the segment symbols through the same insertion rule *)
 RunPass(prog, m, af) ==
@@ -376,8 +379,11 @@ Decide(m, r, defaultPc) ==
                    !.undef = r.undef, !.prevErrs = r.errs, !.errs = {}, !.pass = @ + 1, !.vars = r.vars, !.nodes = r.nodes]
   ELSE IF r.errs # {} /\ r.errs = m.prevErrs
     THEN [m EXCEPT !.tab = r.tab, !.segs = r.segs, !.errs = r.errs, !.phase = "failed"]
-  ELSE IF r.errs = {} /\ r.undef = {}
+  ELSE IF r.errs = {} /\ r.undef = {} /\ m.confirmed
     THEN [m EXCEPT !.tab = r.tab, !.segs = r.segs, !.errs = {}, !.undef = {}, !.phase = "ok"]
+  ELSE IF r.errs = {} /\ r.undef = {}       \* first clean pass: one more pass has to confirm the symbols (shadowing forward references)
+    THEN [m EXCEPT !.tab = r.tab, !.segs = r.segs, !.vars = r.vars, !.nodes = r.nodes, !.confirmed = TRUE,
+                   !.prevErrs = {}, !.errs = {}, !.undef = {}, !.pass = @ + 1]
   ELSE IF r.errs = {} /\ r.undef = m.prevUndef
     THEN [m EXCEPT !.tab = r.tab, !.segs = r.segs, !.undef = r.undef, !.phase = "failed"]     \* "unknown identifier"
   ELSE [m EXCEPT !.tab = r.tab, !.segs = r.segs, !.vars = r.vars, !.nodes = r.nodes,
